@@ -408,6 +408,14 @@ func ruleSniffScan(c *eng.Ctx) {
 			continue
 		}
 		n, bad, pos := fullFileScan(fn)
+		for _, h := range eng.Cluster(fn, 2)[1:] { // scans extracted into helpers of the package count too
+			n2, bad2, pos2 := fullFileScan(h)
+			n += n2
+			if len(bad2) > 0 {
+				bad = append(bad, bad2...)
+				pos = pos2
+			}
+		}
 		if n == 0 {
 			c.Viol(R, name+"#scan", pos, "no loop over the ZIP member list found")
 			continue
@@ -454,12 +462,54 @@ func ruleSniffScan(c *eng.Ctx) {
 		}
 		return nil
 	}
-	m, ct, w := blockOf("mimetype", false), blockOf("META-INF/container.xml", false), blockOf("word/", true)
-	if m == nil || ct == nil || w == nil {
+	// stagePos: where a sniffing stage sits in detectZIPFormat: the header of its scan loop, or the block of the
+	// call to the helper that performs the scan (the helper compares with the constant itself or receives it)
+	cluster := eng.Cluster(fn, 2)
+	stagePos := func(s string, prefix bool) *ssa.BasicBlock {
+		if b := blockOf(s, prefix); b != nil {
+			return loopHead(b)
+		}
+		var out *ssa.BasicBlock
+		eng.Instrs(fn, false, func(in ssa.Instruction) {
+			call, ok := in.(ssa.CallInstruction)
+			if !ok || out != nil {
+				return
+			}
+			h := call.Common().StaticCallee()
+			if h == nil || !eng.InModule(h) || h.Blocks == nil {
+				return
+			}
+			inCluster := false
+			for _, g := range cluster {
+				if g == h {
+					inCluster = true
+				}
+			}
+			if !inCluster {
+				return
+			}
+			for _, a := range call.Common().Args {
+				if cs, ok := eng.ConstString(a); ok && cs == s {
+					out = in.Block()
+				}
+			}
+			eng.Instrs(h, false, func(i2 ssa.Instruction) {
+				for _, op := range i2.Operands(nil) {
+					if op != nil && *op != nil {
+						if cs, ok := eng.ConstString(*op); ok && cs == s {
+							out = in.Block()
+						}
+					}
+				}
+			})
+		})
+		return out
+	}
+	hm, hc, hw := stagePos("mimetype", false), stagePos("META-INF/container.xml", false), stagePos("word/", true)
+	if hm == nil || hc == nil || hw == nil {
 		c.Viol(R, "format.detectZIPFormat#order", fn.Pos(), "one of the three sniffing stages (mimetype, container.xml, OOXML prefixes) is missing")
 		return
 	}
-	hm, hc, hw := loopHead(m), loopHead(ct), loopHead(w)
 	okOrder := hm != nil && hc != nil && hw != nil && hm != hc && hc != hw && hm.Dominates(hc) && hc.Dominates(hw)
 	c.Check(okOrder, R, "format.detectZIPFormat#order", fn.Pos(), "mimetype, then container.xml, then OOXML prefixes", "sniffing stages are not three separate full scans in the order mimetype, container.xml, prefixes (an ODT with an embedded xl/ member would be mis-detected)")
 	// mimetype values
